@@ -91,8 +91,20 @@ func c02Eval(r *hx.Run, cs c02Case, dir string) {
 						return err
 					}
 					// a renderable verdict says what is wrong: every diagnostic's message is in the console output
+					// (exactly under the hypothesis of Props/C02 message_written: the diagnostic's lines exist in the content the
+					// reporter splits on LF; positions outside it are the business of the line-range oracle below)
+					nLF := bytes.Count(content, []byte("\n")) + 1
 					for _, rp := range s.Reports() {
 						for _, d := range rp.Problem.Diagnostics {
+							inFile := len(d.Pos) > 0
+							for _, p := range d.Pos {
+								if p.Line < 1 || p.Line > nLF {
+									inFile = false
+								}
+							}
+							if !inFile {
+								continue
+							}
 							if first := strings.SplitN(d.Message, "\n", 2)[0]; first != "" && !strings.Contains(cb.String(), first) {
 								return fmt.Errorf("diagnostic message of %s missing from the console output: %q", rp.Problem.Reporter, first)
 							}
